@@ -1014,7 +1014,7 @@ MANIFEST = dict(
     'split) are included.',
     note='floats as exact reals; |x| as a defined atom; denominators assumed '
     'non-zero; sizes bounded (K<=3, antennas<=2, streams<=2)'
-    ' Concrete data-representation / scale / boundary probes of the real'
+    '. Concrete data-representation / scale / boundary probes of the real'
     ' code (dtype, container and memory-layout variants, argument'
     ' immutability, magnitudes) accompany the symbolic runs; they are'
     ' differential runs, not solver verdicts.',
